@@ -58,3 +58,23 @@ check("C11", "fault_enumeration",
       "Stateless deviation-bounded exploration of the fault choice points of the MCS stage on the real pipeline: complete 2^J subsets of thread-pool jobs hit by a timeout (J=8 for a 3-row batch; thorough also J=12 batches and per-task pickling isolation), all patterns of <= 1 (thorough 2) faults of any kind (timeouts, cancelled / raising RDKit searches), every single abandoned worker with its record writes landing at every later scheduling point (thorough: every split over two points, and every call event of the stage's modules); each execution judged against the fault-free run (no row lost, unaffected rows identical, affected rows solved+balanced or declined unchanged with a reason). Single-timeout patterns are replayed against the real ThreadPool with a real 3 s sleep.",
       "Abandoned worker = sequence of item assignments on its record, landing atomically at scheduling points; wall-clock timeouts modelled by the seam's timeout alternative and bound to the real pool by the conformance runs.",
       "stateless deviation-bounded fault/schedule exploration over owned choice points (thread-pool outcomes, RDKit faults, zombie write landings), differential oracle vs fault-free run", "DESIGN.md 4/C11")
+check("C08", "exploration",
+      "Both shipped rule databases in full (recorded composition vs independent composition); every imbalance vector with <= 3 atoms (thorough <= 5) over the database's element set x Q in -2..2, H-rich vectors, and sums of up to 2 (thorough 3) database compounds through SyntheticRuleMatcher.match for every select/ranking, SyntheticRuleImputer.single_impute on both sides and RuleConstraint.fit with the pipeline's ban list; every rule-based row of a complete small-reaction universe through the real pipeline.",
+      "Compositions by RDKit; vectors beyond the bounds not covered; redox-template rows are skipped at pipeline level.",
+      "bounded-exhaustive enumeration of imbalance vectors vs independent composition sums", "DESIGN.md 4/C08")
+check("C15", "exploration",
+      "All bracket-atom forms (118 elements x isotope x chirality x H0..6 x charge +-0..3 x map forms) in 23 (thorough 34) bonding environments that RDKit accepts as closed-shell, aromatic bracket atoms in ring environments, explicit-bond spellings, and every corpus reaction molecule by molecule: the molecule after remove_atom_mapping must equal the molecule with maps cleared and no map may survive. 19 (element, H-count) hypervalent-hydride classes are recorded open findings.",
+      "Molecule identity = RDKit canonical SMILES at its re-read fixpoint; closed-shell domain.",
+      "bounded-exhaustive enumeration of bracket-atom forms vs RDKit map-clearing reference", "DESIGN.md 4/C15")
+check("C16", "exploration",
+      "Every (molecule, atom, pattern) triple over complete generated universes (<= 4-5 heavy atoms over C,N,O,S), a ring library and a corpus slice (thorough: whole corpus, U(CNOS,5)) x all 31 pattern/anti-pattern graphs: pattern_match verdict and returned mapping against a brute-force injective sub-graph matcher (cross-checked with RDKit and with literal assignment enumeration on small molecules); is_functional_group under every atom permutation (all n! for <= 4 atoms, rooted family above) for every group.",
+      "Pattern semantics: atoms by symbol, bonds by RDKit bond type, non-induced; stated in the evidence rule.",
+      "bounded-exhaustive enumeration vs brute-force reference matcher + renumbering (metamorphic) invariance", "DESIGN.md 4/C16")
+check("C17", "exploration",
+      "All reactions of Rxn(A17,2) over a 13-molecule alphabet with anagram isomer pairs, aromatic/kekule pairs and ions x every permutation of each side x spelling profiles (thorough: 3-molecule sides): idempotence, normal form equal to the base, similarity exactly 1 for the three methods; symmetry and range over all ordered pairs of a fixed 60-reaction slice.",
+      "Stereo-free inputs; 'all equivalent spellings' = the finite Spell family.",
+      "bounded-exhaustive enumeration of permutations/spellings, metamorphic oracle", "DESIGN.md 4/C17")
+check("C20", "exploration",
+      "MoleculeStandardizer on every rooted spelling of U({C,O},5) and U({C,N,O},4), [O-] / [Na+].[O-] / [Na]O variants of every hydroxyl, gem-diol / hemiketal / enol series, all ordered pairs of 12 molecules as mixtures (thorough: U({C,O},6), U({C,N,O},5), whole corpus): no exception, parsable output that is not an error text, composition and charge conserved, idempotent.",
+      "Compositions by RDKit; fgutils.FGQuery.get memoised per SMILES (validated against fresh calls).",
+      "bounded-exhaustive input enumeration vs independent composition oracle + idempotence", "DESIGN.md 4/C20")
